@@ -16,6 +16,10 @@ pub mod stdspecs {
     // ---- <[u8]>::to_vec copies the bytes ---------------------------------------------------------------------
     pub assume_specification<T: Clone>[ <[T]>::to_vec ](s: &[T]) -> (r: Vec<T>)
         ensures r@.len() == s@.len(), forall|i: int| 0 <= i < s@.len() ==> cloned::<T>(s@[i], #[trigger] r@[i]);
+    pub assume_specification<T: Clone>[ <[T] as std::borrow::ToOwned>::to_owned ](s: &[T]) -> (r: Vec<T>)
+        ensures r@.len() == s@.len(), forall|i: int| 0 <= i < s@.len() ==> cloned::<T>(s@[i], #[trigger] r@[i]);
+    pub assume_specification<T>[ bool::then_some::<T> ](b: bool, t: T) -> (r: Option<T>)
+        ensures r == (if b { Some(t) } else { None });
     pub broadcast proof fn lemma_u8_cloned_eq(a: u8, b: u8)
         requires #[trigger] cloned::<u8>(a, b)
         ensures a == b
